@@ -7,6 +7,7 @@
 #include "core.hpp"
 #include "choice.hpp"
 #include "bfs.hpp"
+#include <memory>
 
 namespace mc {
 
@@ -98,6 +99,76 @@ struct ProbTree {
     double e = 0;
     for (size_t i = 0; i < d.size(); ++i) { std::unique_ptr<State> s = replay(d[i].hist, nullptr); e += d[i].prob * f(*s); }
     return e;
+  }
+  void account() { rep.states += merged_states; rep.transitions += transitions; rep.traces += merged_states; }
+};
+
+// Live variant for long histories: every leaf keeps its live state and successors are produced from a clone of it
+// (Sys::clone) instead of by replaying the whole history. The clone is validated against the leaf's canonical string every
+// time, so a broken copy constructor cannot silently change what is explored (it stops the run as a broken check).
+template<class Sys>
+struct LiveTree {
+  typedef typename Sys::State State;
+  struct LLeaf { double prob; std::shared_ptr<State> st; std::string canon; uint64_t draws_min, draws_max; Hist hist; };
+  Sys& sys; Report& rep; unsigned grid; ChoiceStats st; size_t max_leaves;
+  uint64_t transitions = 0, merged_states = 0, raw_leaves = 0, clones = 0; bool capped = false;
+  bool draws_outcome_dependent = false; std::string draws_witness;
+  LiveTree(Sys& s, Report& r, unsigned g, size_t ml = 1u << 20): sys(s), rep(r), grid(g), max_leaves(ml) {}
+  std::string hist_str(const Hist& h) const {
+    std::string s2;
+    for (size_t i = 0; i < h.size(); ++i) { if (i) s2 += ";"; s2 += sys.opname(h[i].op); if (!h[i].tape.empty()) s2 += "~" + tape_str(h[i].tape); }
+    return s2;
+  }
+  std::vector<LLeaf> root() { std::vector<LLeaf> v; LLeaf l; l.prob = 1; l.draws_min = l.draws_max = 0; l.st.reset(sys.make()); l.canon = sys.canon(*l.st); v.push_back(l); return v; }
+  std::shared_ptr<State> apply_on_clone(const LLeaf& leaf, size_t op, const std::vector<uint64_t>& tape, uint64_t fill, Tape* out) {
+    std::shared_ptr<State> s2(sys.clone(*leaf.st)); clones++;
+    Tape t; t.v = tape; t.set_fill(fill);
+    { TapeScope sc(t); if (!sys.apply(*s2, op, nullptr)) { fprintf(stderr, "HARNESS-ERROR: op disabled in a probabilistic history\n"); abort(); } }
+    if (out) *out = t;
+    return s2;
+  }
+  std::vector<LLeaf> step(const std::vector<LLeaf>& cur, size_t op) {
+    std::map<std::string, LLeaf> next; const std::string sc = sys.name();
+    for (size_t li = 0; li < cur.size() && !capped; ++li) {
+      const LLeaf& leaf = cur[li];
+      { std::shared_ptr<State> probe(sys.clone(*leaf.st)); if (sys.canon(*probe) != leaf.canon) { fprintf(stderr, "HARNESS-ERROR: clone differs from its source in %s (copy construction is broken: see C19)\n", sc.c_str()); abort(); } }
+      Hist h = leaf.hist; Step stp; stp.op = (uint16_t)op; h.push_back(stp);
+      if (!journal(sc, hist_str(h))) continue;
+      LiveTree* self = this; const LLeaf* lp = &leaf;
+      RunFn rf = [self, lp, op](const std::vector<uint64_t>& tape, uint64_t fill) -> RunResult {
+        Tape t; RunResult r;
+        try { std::shared_ptr<State> s2 = self->apply_on_clone(*lp, op, tape, fill, &t); r.canon = self->sys.canon(*s2); }
+        catch (const std::exception& e) { r.failed = true; r.canon = e.what(); }
+        r.kinds = t.kinds; r.seg = t.seg; return r;
+      };
+      bool cap2 = false;
+      std::vector<Outcome> outs = enumerate_outcomes(rf, grid, st, max_leaves, &cap2);
+      if (cap2) { capped = true; rep.cap("choice tree of one operation exceeded the leaf cap in " + sc); }
+      double mass = 0; size_t nd0 = outs.empty() ? 0 : outs[0].tape.size();
+      for (size_t k = 0; k < outs.size(); ++k) {
+        mass += outs[k].prob; transitions++; raw_leaves++;
+        if (outs[k].tape.size() != nd0 && !draws_outcome_dependent) { draws_outcome_dependent = true; h.back().tape = outs[k].tape; draws_witness = hist_str(h); }
+        typename std::map<std::string, LLeaf>::iterator f = next.find(outs[k].canon);
+        if (f != next.end()) {
+          f->second.prob += leaf.prob * outs[k].prob;
+          f->second.draws_min = std::min(f->second.draws_min, leaf.draws_min + outs[k].tape.size());
+          f->second.draws_max = std::max(f->second.draws_max, leaf.draws_max + outs[k].tape.size());
+          continue;
+        }
+        LLeaf nl; nl.prob = leaf.prob * outs[k].prob; nl.hist = h; nl.hist.back().tape = outs[k].tape; nl.canon = outs[k].canon;
+        nl.draws_min = leaf.draws_min + outs[k].tape.size(); nl.draws_max = leaf.draws_max + outs[k].tape.size();
+        nl.st = apply_on_clone(leaf, op, outs[k].tape, 0x8000000000000000ULL, nullptr);
+        { Ctx ctx(rep, sc, hist_str(nl.hist)); int a0 = asan_errors(); safe_check(sys, *nl.st, ctx);
+          if (asan_errors() != a0) ctx.fail("asan", "AddressSanitizer report during this operation");
+          rep.flush_ctx_fails(ctx.fails, sc, hist_str(nl.hist)); }
+        next[nl.canon] = nl;
+      }
+      if (std::fabs(mass - 1.0) > 1e-9 && !cap2) { fprintf(stderr, "HARNESS-ERROR: choice mass %.15g != 1 in %s\n", mass, sc.c_str()); abort(); }
+    }
+    std::vector<LLeaf> out;
+    for (typename std::map<std::string, LLeaf>::iterator i = next.begin(); i != next.end(); ++i) out.push_back(i->second);
+    merged_states += out.size();
+    return out;
   }
   void account() { rep.states += merged_states; rep.transitions += transitions; rep.traces += merged_states; }
 };
